@@ -15,6 +15,7 @@ package cert
 
 import (
 	"bytes"
+	"context"
 	"fmt"
 	"os"
 	"sort"
@@ -25,6 +26,7 @@ import (
 
 	"github.com/relab/hotstuff"
 	"github.com/relab/hotstuff/core"
+	"github.com/relab/hotstuff/core/eventloop"
 	"github.com/relab/hotstuff/core/logging"
 	"github.com/relab/hotstuff/internal/proto/clientpb"
 	"github.com/relab/hotstuff/security/blockchain"
@@ -491,11 +493,14 @@ type c11Op struct {
 	batch  map[hotstuff.ID][]byte
 	sigs   []*c11Sig
 	view   hotstuff.View
-	blk    int           // qc / vpc / anyqc / mkpc / mkqc: index of the certified block (0 = A, 1 = B)
-	pblk   int           // mkqc: the block the votes claim (and were signed) for
-	pview  hotstuff.View // mktc / mkagg: the view the timeout messages were made for
-	msgBuf *[]byte       // pooled buffer behind msg (private copies only)
-	alter  string        // what was altered w.r.t. an earlier operation ("" = fresh, "same" = identical replay)
+	blk    int                 // qc / vpc / anyqc / mkpc / mkqc: index of the certified block (0 = A, 1 = B; -1 = genesis, qc only)
+	dview  int                 // qc / anyqc: the certificate states the block's view + dview
+	absent bool                // qc / vpc / anyqc: the block store no longer has the block when this request arrives
+	rq     map[hotstuff.ID]int // aggqc: reports whose QC is not the genesis QC (see c11ReportQC)
+	pblk   int                 // mkqc: the block the votes claim (and were signed) for
+	pview  hotstuff.View       // mktc / mkagg: the view the timeout messages were made for
+	msgBuf *[]byte             // pooled buffer behind msg (private copies only)
+	alter  string              // what was altered w.r.t. an earlier operation ("" = fresh, "same" = identical replay)
 }
 
 type c11Res struct {
@@ -510,6 +515,34 @@ var c11Block *hotstuff.Block
 
 // c11Blocks are the stored blocks A and B of the current world.
 var c11Blocks []*hotstuff.Block
+
+// c11NoBlocks is a block store that holds the genesis block only and whose fetches fail: what the
+// authorities see when a certificate arrives for a block they do not (or no longer) have.
+var c11NoBlocks = blockchain.New(eventloop.New(logging.New("c11"), 16), logging.New("c11"), c11NoSender{})
+
+type c11NoSender struct{}
+
+func (c11NoSender) NewView(hotstuff.ID, hotstuff.SyncInfo) error { return nil }
+func (c11NoSender) Vote(hotstuff.ID, hotstuff.PartialCert) error { return nil }
+func (c11NoSender) Timeout(hotstuff.TimeoutMsg)                  {}
+func (c11NoSender) Propose(*hotstuff.ProposeMsg)                 {}
+func (c11NoSender) RequestBlock(context.Context, hotstuff.Hash) (*hotstuff.Block, bool) {
+	return nil, false
+}
+func (c11NoSender) Sub([]hotstuff.ID) (core.Sender, error) { return c11NoSender{}, nil }
+
+// c11ReportQC: the QC a replica reports inside an aggregate QC. 0 = the genesis QC;
+// 2 = the genesis block under view 3 (invalid since "genesis QC only for view 0");
+// 3 = the zero QuorumCert (no block, no signature).  None of them reaches the scheme.
+func c11ReportQC(kind int) hotstuff.QuorumCert {
+	switch kind {
+	case 2:
+		return hotstuff.NewQuorumCert(nil, 3, hotstuff.GetGenesis().Hash())
+	case 3:
+		return hotstuff.QuorumCert{}
+	}
+	return c11GenesisQC()
+}
 
 var c11Verdict = []string{"accept", "reject", "panic"}
 var c11GVerdict = []string{"VAccept", "VReject", "VPanic"}
@@ -536,7 +569,7 @@ func (o *c11Op) effBatch() map[hotstuff.ID][]byte {
 	}
 	b := map[hotstuff.ID][]byte{}
 	for id := range o.batch {
-		b[id] = c11TimeoutBytes(id, o.view)
+		b[id] = hotstuff.TimeoutMsg{ID: id, View: o.view, SyncInfo: hotstuff.NewSyncInfoWith(c11ReportQC(o.rq[id]))}.ToBytes()
 	}
 	return b
 }
@@ -608,6 +641,11 @@ func c11Scribble(o *c11Op, objs ...hotstuff.QuorumSignature) {
 
 func c11Run(a *Authority, o *c11Op) (res c11Res) {
 	o = o.private()
+	if o.absent { // the authority's block store does not have the block (and cannot fetch it) right now
+		saved := a.blockchain
+		a.blockchain = c11NoBlocks
+		defer func() { a.blockchain = saved }()
+	}
 	var returned []hotstuff.QuorumSignature
 	defer func() {
 		if r := recover(); r != nil {
@@ -651,15 +689,18 @@ func c11Run(a *Authority, o *c11Op) (res c11Res) {
 		return verdict(a.VerifyTimeoutCert(hotstuff.NewTimeoutCert(so, o.view)))
 	case "qc":
 		so, _ := o.sig.obj()
-		b := c11Blocks[o.blk]
-		return verdict(a.VerifyQuorumCert(hotstuff.NewQuorumCert(so, b.View(), b.Hash())))
+		b := hotstuff.GetGenesis()
+		if o.blk >= 0 {
+			b = c11Blocks[o.blk]
+		}
+		return verdict(a.VerifyQuorumCert(hotstuff.NewQuorumCert(so, b.View()+hotstuff.View(o.dview), b.Hash())))
 	case "vpc":
 		so, _ := o.sig.obj()
 		return verdict(a.VerifyPartialCert(hotstuff.NewPartialCert(so, c11Blocks[o.blk].Hash())))
 	case "anyqc":
 		so, _ := o.sig.obj()
 		b := c11Blocks[o.blk]
-		child := hotstuff.NewBlock(b.Hash(), hotstuff.NewQuorumCert(so, b.View(), b.Hash()), &clientpb.Batch{Commands: []*clientpb.Command{}}, b.View()+1, 1)
+		child := hotstuff.NewBlock(b.Hash(), hotstuff.NewQuorumCert(so, b.View()+hotstuff.View(o.dview), b.Hash()), &clientpb.Batch{Commands: []*clientpb.Command{}}, b.View()+1, 1)
 		return verdict(a.VerifyAnyQC(&hotstuff.ProposeMsg{ID: 1, Block: child}))
 	case "mkpc":
 		pc, err := a.CreatePartialCert(c11Blocks[o.blk])
@@ -710,7 +751,7 @@ func c11Run(a *Authority, o *c11Op) (res c11Res) {
 		so, _ := o.sig.obj()
 		qcs := map[hotstuff.ID]hotstuff.QuorumCert{}
 		for id := range o.batch {
-			qcs[id] = c11GenesisQC()
+			qcs[id] = c11ReportQC(o.rq[id])
 		}
 		_, err := a.VerifyAggregateQC(hotstuff.NewAggregateQC(qcs, so, o.view))
 		return verdict(err)
@@ -746,12 +787,19 @@ func (o *c11Op) desc() string {
 		return "Combine(" + strings.Join(p, ", ") + ")"
 	case "tc":
 		return fmt.Sprintf("VerifyTimeoutCert(view=%d, sig=[%s]) [%s]", o.view, o.sig.desc(), a)
-	case "qc":
-		return fmt.Sprintf("VerifyQuorumCert(stored block %c, sig=[%s]) [%s]", 'A'+o.blk, o.sig.desc(), a)
-	case "vpc":
-		return fmt.Sprintf("VerifyPartialCert(stored block %c, sig=[%s]) [%s]", 'A'+o.blk, o.sig.desc(), a)
-	case "anyqc":
-		return fmt.Sprintf("VerifyAnyQC(proposal whose block carries a QC for stored block %c, sig=[%s]) [%s]", 'A'+o.blk, o.sig.desc(), a)
+	case "qc", "vpc", "anyqc":
+		blk, bview := "the genesis block", 0
+		if o.blk >= 0 {
+			blk, bview = fmt.Sprintf("block %c (view %d)", 'A'+o.blk, o.blk+1), o.blk+1
+		}
+		if o.dview != 0 {
+			blk += fmt.Sprintf(" under the stated view %d", hotstuff.View(bview)+hotstuff.View(o.dview))
+		}
+		if o.absent {
+			blk += ", block NOT in the block store at this time"
+		}
+		name := map[string]string{"qc": "VerifyQuorumCert", "vpc": "VerifyPartialCert", "anyqc": "VerifyAnyQC(proposal carrying the QC)"}[o.op]
+		return fmt.Sprintf("%s(%s, sig=[%s]) [%s]", name, blk, o.sig.desc(), a)
 	case "mkpc":
 		return fmt.Sprintf("CreatePartialCert(stored block %c)", 'A'+o.blk)
 	case "mkqc", "mktc", "mkagg":
@@ -767,7 +815,11 @@ func (o *c11Op) desc() string {
 		}
 		return fmt.Sprintf("CreateAggregateQC(view %d, timeouts of view %d with message signatures %s) [%s]", o.view, o.pview, strings.Join(p, ", "), a)
 	case "aggqc":
-		return fmt.Sprintf("VerifyAggregateQC(view=%d, genesis QCs of %v, sig=[%s]) [%s]", o.view, c11SortedIDs(o.batch), o.sig.desc(), a)
+		rq := ""
+		if len(o.rq) > 0 {
+			rq = fmt.Sprintf(", reports with another QC %v (2 = genesis block under view 3, 3 = empty QC)", o.rq)
+		}
+		return fmt.Sprintf("VerifyAggregateQC(view=%d, genesis QCs of %v%s, sig=[%s]) [%s]", o.view, c11SortedIDs(o.batch), rq, o.sig.desc(), a)
 	}
 	return o.op
 }
@@ -792,9 +844,9 @@ func (o *c11Op) shape() string {
 		}
 		return fmt.Sprintf("%s:%d:%d:%d:%d:", o.op, o.blk, o.pblk, o.view, o.pview) + strings.Join(p, "+")
 	case "qc", "vpc", "anyqc", "mkpc":
-		return fmt.Sprintf("%s:%s:%d:%s", o.op, sg(o.sig), o.blk, o.alter)
+		return fmt.Sprintf("%s:%s:%d:%d:%v:%s", o.op, sg(o.sig), o.blk, o.dview, o.absent, o.alter)
 	case "batch", "aggqc":
-		return fmt.Sprintf("%s:%s:%s:%d:%s", o.op, sg(o.sig), c11BatchDesc(o.batch), o.view, o.alter)
+		return fmt.Sprintf("%s:%s:%s:%d:%v:%s", o.op, sg(o.sig), c11BatchDesc(o.batch), o.view, o.rq, o.alter)
 	}
 	return fmt.Sprintf("%s:%s:%x:%d:%s", o.op, sg(o.sig), o.msg, o.view, o.alter)
 }
@@ -962,6 +1014,9 @@ func (q *c11Seq) do(o *c11Op) (plain, cached c11Res) {
 	case "sign", "mkpc":
 		q.items = append(q.items, fmt.Sprintf("(CSign %s %s, %s)", c11GBytes(signedMsg), q.gosig(cached.sig), obsV()))
 	case "vpc": // no quorum check: every partial certificate for a stored block reaches Verify
+		if o.absent {
+			break // block not found: neither the scheme nor the cache is reached
+		}
 		q.items = append(q.items, fmt.Sprintf("(CVerify %s %s %s, %s)", q.gsig(o.sig), c11GBytes(w.blocks[o.blk].ToBytes()), c11GVerdict[plain.verdict], obsV()))
 	case "verify":
 		q.items = append(q.items, fmt.Sprintf("(CVerify %s %s %s, %s)", q.gsig(o.sig), c11GBytes(o.msg), c11GVerdict[plain.verdict], obsV()))
@@ -983,8 +1038,9 @@ func (q *c11Seq) do(o *c11Op) (plain, cached c11Res) {
 			q.items = append(q.items, fmt.Sprintf("(CVerify %s %s %s, %s)", q.gsig(o.sig), c11GBytes(o.view.ToBytes()), c11GVerdict[plain.verdict], obsV()))
 		}
 	case "qc", "anyqc":
-		// nil and sub-quorum certificates never reach the scheme or the cache
-		if o.sig.kind != c11Nil && len(o.sig.ids) >= w.plain.config.QuorumSize() {
+		// nil and sub-quorum certificates, certificates for the genesis block, for a block that is not
+		// in the store, or stating another view than their block's never reach the scheme or the cache
+		if o.blk >= 0 && !o.absent && o.dview == 0 && o.sig.kind != c11Nil && len(o.sig.ids) >= w.plain.config.QuorumSize() {
 			q.items = append(q.items, fmt.Sprintf("(CVerify %s %s %s, %s)", q.gsig(o.sig), c11GBytes(w.blocks[o.blk].ToBytes()), c11GVerdict[plain.verdict], obsV()))
 		}
 	case "aggqc":
@@ -1244,7 +1300,7 @@ func (w *c11World) alterOp(v *verifOut, o *c11Op) *c11Op {
 	n.batch = c11CloneBatch(o.batch)
 	isBatch := o.op == "batch" || o.op == "aggqc"
 	for try := 0; try < 12; try++ {
-		switch v.rng.Intn(18) {
+		switch v.rng.Intn(22) {
 		case 0: // message
 			if o.op == "verify" {
 				n.msg = c11Msgs[v.rng.Intn(len(c11Msgs))]
@@ -1253,8 +1309,36 @@ func (w *c11World) alterOp(v *verifOut, o *c11Op) *c11Op {
 					return &n
 				}
 			}
+		case 18, 19: // fields the authority checks outside the scheme: the view a QC states for its block
+			if (o.op == "qc" || o.op == "anyqc") && o.blk >= 0 {
+				n.dview = []int{1, 100, -1, 1 << 20}[v.rng.Intn(4)]
+				if n.dview != o.dview {
+					n.alter = "stated-view"
+					return &n
+				}
+			}
+		case 20: // ... and whether the block is in the store when the certificate arrives
+			if (o.op == "qc" || o.op == "anyqc" || o.op == "vpc") && o.blk >= 0 && !o.absent {
+				n.absent = true
+				n.alter = "block-absent"
+				return &n
+			}
+		case 21: // ... and the QC a replica reports inside an aggregate QC
+			if o.op == "aggqc" && len(o.batch) >= 2 {
+				ids := c11SortedIDs(o.batch)
+				id := ids[v.rng.Intn(len(ids)-1)] // the last report keeps the genesis QC: a valid high QC exists
+				n.rq = map[hotstuff.ID]int{}
+				for k, x := range o.rq {
+					n.rq[k] = x
+				}
+				n.rq[id] = 2 + v.rng.Intn(2)
+				if n.rq[id] != o.rq[id] {
+					n.alter = "report-qc"
+					return &n
+				}
+			}
 		case 1: // view / certified block
-			if o.op == "qc" || o.op == "vpc" || o.op == "anyqc" {
+			if (o.op == "qc" || o.op == "vpc" || o.op == "anyqc") && o.blk >= 0 {
 				n.blk = 1 - o.blk
 				n.alter = "block"
 				return &n
@@ -2027,6 +2111,70 @@ func (w *c11World) certs(v *verifOut) {
 	}
 }
 
+// fields: everything a Verify* method of the authority reads besides the signature -- the view a QC
+// states, whether its block is in the store, the genesis shortcut, the view of a TC / aggregate QC
+// and the QCs reported inside it -- changed AFTER the genuine certificate was verified (and is
+// remembered), then the genuine one again.  All orders of a small alphabet, and longer scripted runs.
+func (w *c11World) fields(v *verifOut) {
+	a, b, c := w.ids[0], w.ids[1], w.ids[2]
+	sq := w.multi(w.blocks[0].ToBytes(), a, b, c)
+	sqB := w.multi(w.blocks[1].ToBytes(), a, b, c)
+	vote := w.atom(b, w.blocks[0].ToBytes())
+	alpha := []*c11Op{
+		{op: "qc", sig: sq},
+		{op: "qc", sig: sq, dview: 100, alter: "stated-view"},
+		{op: "qc", sig: sq, absent: true, alter: "block-absent"},
+		{op: "vpc", sig: vote},
+		{op: "vpc", sig: vote, absent: true, alter: "block-absent"},
+		{op: "anyqc", sig: sq, dview: 1, alter: "stated-view"},
+		{op: "verify", sig: w.atom(b, []byte("p")), msg: []byte("p")},
+	}
+	w.allSequences(v, "fld", alpha, 3, []int{1, 2, 8})
+
+	view := hotstuff.View(7)
+	ids := map[hotstuff.ID][]byte{a: nil, b: nil, c: nil}
+	tb := map[hotstuff.ID][]byte{}
+	tbr := map[hotstuff.ID][]byte{} // reports: a reports the genesis block under view 3
+	rq := map[hotstuff.ID]int{a: 2}
+	for id := range ids {
+		tb[id] = c11TimeoutBytes(id, view)
+		tbr[id] = hotstuff.TimeoutMsg{ID: id, View: view, SyncInfo: hotstuff.NewSyncInfoWith(c11ReportQC(rq[id]))}.ToBytes()
+	}
+	sg, sgr := w.batchSig(tb), w.batchSig(tbr)
+	sv := w.multi(view.ToBytes(), a, b, c)
+	nilSig := &c11Sig{kind: c11Nil, how: "nil"}
+	script := []*c11Op{
+		{op: "qc", sig: sq}, {op: "qc", sig: sq, alter: "same"},
+		{op: "qc", sig: sq, dview: 1, alter: "stated-view"}, {op: "qc", sig: sq, dview: 100, alter: "stated-view"},
+		{op: "qc", sig: sq, dview: -1, alter: "stated-view"}, {op: "qc", sig: sq, dview: 1 << 30, alter: "stated-view"},
+		{op: "anyqc", sig: sq, dview: 100, alter: "stated-view"}, {op: "anyqc", sig: sq, alter: "same"},
+		{op: "qc", sig: sq, absent: true, alter: "block-absent"}, {op: "anyqc", sig: sq, absent: true, alter: "block-absent"},
+		{op: "vpc", sig: sq, absent: true, alter: "block-absent"}, {op: "vpc", sig: sq, alter: "same"},
+		{op: "qc", sig: sq, blk: 1, alter: "block"}, {op: "qc", sig: sqB, blk: 1}, {op: "qc", sig: sqB, blk: 1, dview: -1, alter: "stated-view"},
+		{op: "qc", sig: sq, alter: "same"},
+		// the genesis shortcut: valid only for view 0 and without a signature
+		{op: "qc", sig: nilSig, blk: -1},
+		{op: "qc", sig: nilSig, blk: -1, dview: 3, alter: "stated-view"},
+		{op: "qc", sig: sq, blk: -1, alter: "block"}, {op: "qc", sig: sq, blk: -1, dview: 1, alter: "block"},
+		// timeout certificate: the view is what was signed
+		{op: "tc", sig: sv, view: view}, {op: "tc", sig: sv, view: view + 1, alter: "view"}, {op: "tc", sig: sv, view: 0, alter: "view"},
+		{op: "tc", sig: sv, view: view, alter: "same"},
+		// aggregate QC: its view and the reported QCs are what was signed
+		{op: "aggqc", sig: sg, batch: ids, view: view}, {op: "aggqc", sig: sg, batch: ids, view: view + 1, alter: "view"},
+		{op: "aggqc", sig: sg, batch: ids, view: view, rq: rq, alter: "report-qc"},
+		{op: "aggqc", sig: sg, batch: ids, view: view, rq: map[hotstuff.ID]int{b: 3}, alter: "report-qc"},
+		{op: "aggqc", sig: sgr, batch: ids, view: view, rq: rq}, {op: "aggqc", sig: sgr, batch: ids, view: view, alter: "report-qc"},
+		{op: "aggqc", sig: sgr, batch: ids, view: view, rq: rq, alter: "same"}, {op: "aggqc", sig: sg, batch: ids, view: view, alter: "same"},
+	}
+	for _, capacity := range []int{1, 2, 4, 100} {
+		q := c11NewSeq(w, v, "fld", capacity)
+		for _, o := range script {
+			q.do(o)
+		}
+		q.finish()
+	}
+}
+
 // hibits: a verification with the genuine labels (remembered), then the same signature with one
 // or all signer labels replaced by ids that differ only in high bits (id + m*2^k for every k in
 // 8..31, resp. 8..20 for BLS bitfields), then the genuine one again.  Single signatures,
@@ -2119,6 +2267,7 @@ func TestVerifC11(t *testing.T) {
 		w.boundary(v)
 		w.hibits(v)
 		w.certs(v)
+		w.fields(v)
 		w.concurrent(v, v.Pick(4, 40), 6, v.Pick(12, 40))
 		switch name {
 		case crypto.NameBLS12:
